@@ -125,6 +125,18 @@ Ltac src_case :=
       [ pose proof (chk64_range _ _ _ E) as R ]
   end.
 
+(* both sides start with the same checked operation on arguments that are equal only up to linear
+   rearrangement (`1 + i` / `i + 1`): make them syntactically equal first *)
+Ltac src_match_args :=
+  match goal with
+  | |- bind (chk32 ?m ?z1) _ = bind (chk32 ?m ?z2) _ =>
+      tryif constr_eq z1 z2 then fail else replace z1 with z2 by lia
+  | |- bind (chk64 ?m ?z1) _ = bind (chk64 ?m ?z2) _ =>
+      tryif constr_eq z1 z2 then fail else replace z1 with z2 by lia
+  | |- chk32 ?m ?z1 = chk32 ?m ?z2 => replace z1 with z2 by lia
+  | |- chk64 ?m ?z1 = chk64 ?m ?z2 => replace z1 with z2 by lia
+  end.
+
 Ltac src_unfold_ops :=
   unfold add32, sub32, mul32, add64, sub64, mul64, neg32, neg64 in *.
 
